@@ -159,17 +159,29 @@ def run(tier, seed, only=None):
     ctx = common.Ctx()
     timeout_ms = 60000 if tier == 'quick' else 600000
 
-    def go():
-        for v in (0, 1, 2):
-            name = 'full-module/variant%d' % v
-            if only and name not in only:
-                continue
-            run_scenario(ctx, report, name, scen.full_module(v), timeout_ms)
-        if not only or 'edit/add-import-table' in only:
-            run_edit_scenario(ctx, report, 'edit/add-import-table', timeout_ms)
-            run_edit_scenario(ctx, report, 'edit/add-import-table/local-tables-only', timeout_ms, local_tables_module, with_late_table_first)
-    engine.run_in_big_stack(go)
-    report.bounds = {'structure': 'three descriptions: 4 types, 5-6 imports (func,table,memory,global), 3 local functions, 2 tables, 2 memories, 7 globals (all 7 constant-expression forms), 7 exports, start, 5-7 element segments (active implicit/explicit table, passive, declared; function-index and funcref/externref expression items), 3 data segments (active const / active global.get / passive), data count present and absent',
+    from obligations import gen
+    items = []
+    for v in (0, 1, 2):
+        name = 'full-module/variant%d' % v
+        if not only or name in only:
+            items.append(('scen', name, scen.full_module(v)))
+    if not only or 'edit/add-import-table' in only:
+        items.append(('edit', 'edit/add-import-table', None))
+        items.append(('edit2', 'edit/add-import-table/local-tables-only', None))
+    gl = gen.generated(tier, seed)
+    for name, sp in gl:
+        if not only or name in only:
+            items.append(('scen', name, sp))
+
+    def job(ctx, report, kind, name, sp):
+        if kind == 'scen':
+            run_scenario(ctx, report, name, sp, timeout_ms)
+        elif kind == 'edit':
+            run_edit_scenario(ctx, report, name, timeout_ms)
+        else:
+            run_edit_scenario(ctx, report, name, timeout_ms, local_tables_module, with_late_table_first)
+    pc.run_parallel(ctx, report, job, items)
+    report.bounds = {'generated': gen.bounds_text(tier, len(gl)), 'structure': 'three descriptions: 4 types, 5-6 imports (func,table,memory,global), 3 local functions, 2 tables, 2 memories, 7 globals (all 7 constant-expression forms), 7 exports, start, 5-7 element segments (active implicit/explicit table, passive, declared; function-index and funcref/externref expression items), 3 data segments (active const / active global.get / passive), data count present and absent',
                      'attributes': 'every limit (u64), flag (bool), initialiser / offset constant (i32,i64,f32 bits,f64 bits,16 v128 bytes) is symbolic over its full width; Option-valued attributes (maximum, page_size_log2, table index) are covered in both alternatives across the three variants'}
     report.assumptions = ['the description is a valid module, so Validator::* return Ok (the reader/validator calls are modelled, everything else is walrus code)',
                           'wasm-encoder builders record their arguments (byte encoding is the codec\'s)', 'log::max_level() == Off']
